@@ -9,7 +9,7 @@ interpreter. A True verdict of DependencyTools.can_loop_be_parallelised /
 Loop.independent_iterations is refuted by two distinct iterations of the
 same loop execution touching one location with at least one write (scalars
 that every iteration unconditionally writes before reading are exempt, as
-are loop variables). Termination: the analysis runs under a 120 s alarm.
+are loop variables). Termination: the analysis runs under a 30 s alarm.
 """
 import signal
 
@@ -34,7 +34,7 @@ ASSUMPTIONS = [
     "exemption implemented as worded: a scalar whose first access in EVERY "
     "executed iteration is a write by a statement not nested in an IF / "
     "inner loop / WHILE of the loop body",
-    "termination bound 120 s per analysis call (normal cost: milliseconds)",
+    "termination bound 30 s per analysis call (normal cost: milliseconds)",
 ]
 
 PROFILE = gf.make_profile(
@@ -48,7 +48,7 @@ PROFILE_NAMES = gf.make_profile(
     helpers=(0, 0), nstmts=(2, 4), array_intrinsics=False, functions=False,
     extra_int_scalars=("d_i", "d1_i", "d_j"))
 
-TIMEOUT = 120
+TIMEOUT = 30
 
 
 class Timeout(Exception):
